@@ -253,7 +253,7 @@ func earlierClients(k int) {
 	}
 }
 
-func runUpgrader(cfg Cfg, req *gen.Req, plan xport.Plan) outcome {
+func runUpgrader(cfg Cfg, req *gen.Req, plan xport.Plan, recHook ...func(*xport.Rec)) outcome {
 	var out outcome
 	out.reached = true
 	u := ws.Upgrader{ReadBufferSize: cfg.RBuf, WriteBufferSize: cfg.WBuf}
@@ -316,6 +316,9 @@ func runUpgrader(cfg Cfg, req *gen.Req, plan xport.Plan) outcome {
 	}
 	ch := xport.NewChunker(req.Bytes(), plan)
 	rec := xport.NewRec()
+	for _, h := range recHook {
+		h(rec) // (a connection that fails)
+	}
 	if cfg.PkgLevel && cfg.zero() {
 		out.hs, out.err = ws.Upgrade(xport.RW{Reader: ch, Writer: rec})
 	} else {
@@ -904,6 +907,62 @@ func subRandom() mon.Sub {
 	}
 }
 
+// subWriteFault: "report success exactly when ...; the bytes then written are a 101 response". The connection refuses
+// (or cuts short) one of the writes that carry the response: whatever the request, a handshake whose answer did not
+// reach the wire complete is not a success, and a refused request stays refused. Every write call of the fault-free run
+// is failed in turn, with every fault kind of xport.FaultKinds, with and without a partial count.
+func subWriteFault() mon.Sub {
+	return mon.Sub{
+		Name: "response-write-fault", Required: true,
+		N: func(t string) int {
+			if t == "thorough" {
+				return 60000
+			}
+			return 1500
+		},
+		Do: func(c *mon.C) {
+			choice := map[string]string{}
+			for _, f := range gen.ReqFactors {
+				if c.Rng.Intn(12) == 0 {
+					vs := gen.ReqVariants[f]
+					choice[f] = vs[c.Rng.Intn(len(vs))]
+				}
+			}
+			cfg := randCfg(c, c.Rng.Intn(3) == 0)
+			req := gen.BuildReq(c.Rng, choice, protoOffers[c.Rng.Intn(len(protoOffers))], extOffers[c.Rng.Intn(len(extOffers))])
+			plans := xport.Plans(c.Rng.Int63(), nil)
+			plan := plans[c.Rng.Intn(len(plans))]
+			// the write calls of the fault-free run
+			var baseRec *xport.Rec
+			base := runUpgrader(cfg, req, plan, func(r *xport.Rec) { baseRec = r })
+			if baseRec == nil || len(baseRec.Calls) == 0 {
+				c.Classf("write-fault|nothing-written|ok=%v", base.err == nil)
+				return
+			}
+			kinds := xport.FaultKinds
+			for k := 0; k < len(baseRec.Calls); k++ {
+				kind := kinds[c.Rng.Intn(len(kinds))]
+				short := -1
+				if n := len(baseRec.Calls[k].Data); n > 1 && c.Rng.Intn(2) == 0 {
+					short = c.Rng.Intn(n) // strictly less than the call's bytes
+				}
+				c.Count(1)
+				out := runUpgrader(cfg, req, plan, func(r *xport.Rec) { r.FailAt, r.ShortN, r.Err, r.Sticky = k, short, kind.Err, true })
+				if out.err == nil {
+					c.Fail("write-fault/success-reported", fmt.Sprintf("the connection failed write call %d of %d of the response (%s, %d bytes accepted) and Upgrade reported success: the caller holds a \"handshaken\" connection whose peer never got a complete 101 (fault-free outcome: err=%v)", k, len(baseRec.Calls), kind.Name, max(short, 0), base.err),
+						map[string]interface{}{"cfg": cfg.String(), "request": string(req.Bytes()), "fault_call": k, "fault": kind.Name, "accepted_bytes": short, "written": string(out.written)})
+					return
+				}
+				if base.err == nil && bytes.Contains(out.written, []byte("\r\n\r\n")) && bytes.HasPrefix(out.written, []byte("HTTP/1.1 101")) && short < 0 && k == 0 {
+					c.Fail("write-fault/written-despite-refusal", "the destination refused the first write and a complete 101 is on the wire", map[string]interface{}{"cfg": cfg.String()})
+					return
+				}
+			}
+			c.Classf("write-fault|base-ok=%v|calls=%d", base.err == nil, len(baseRec.Calls))
+		},
+	}
+}
+
 // ---- a ResponseWriter that cannot be hijacked: the upgrade cannot happen, the client gets an HTTP error
 
 type plainRW struct {
@@ -991,8 +1050,8 @@ func main() {
 		Property: "C09",
 		Level:    "exploration",
 		Rule: "requests are generated from a grammar together with their derivation (9 factors: method, version token, Host, Upgrade, Connection, Sec-WebSocket-Version, Sec-WebSocket-Key, extra headers, line ends; 2-17 variants each incl. absent / case- and blank-varied / wrong / empty / duplicated); the three-valued oracle (MUST_ACCEPT / MUST_REJECT with allowed statuses / OPEN) is evaluated on the derivation, not by re-parsing. " +
-			"Cases: every single factor variant x 4 configurations, every pair of non-canonical variants of different factors, the canonical request x every subprotocol selector x extension selector/negotiator x offer lists, and seeded random derivations x random configurations (selectors, callbacks rejecting with plain/custom errors, header writers, I/O buffer sizes, chunked transport). ws.Upgrader runs over an in-memory chunked transport; ws.HTTPUpgrader behind a real net/http.Server on an in-memory listener. Responses are parsed by net/http. distinct = (upgrader, verdict class, non-canonical variants, selector kinds, outcome).",
+			"Cases: every single factor variant x 4 configurations, every pair of non-canonical variants of different factors, the canonical request x every subprotocol selector x extension selector/negotiator x offer lists, and seeded random derivations x random configurations (selectors, callbacks rejecting with plain/custom errors, header writers, I/O buffer sizes, chunked transport); sub response-write-fault fails every write call of the response in turn (every fault kind, with and without a partial count): success is never reported then. ws.Upgrader runs over an in-memory chunked transport; ws.HTTPUpgrader behind a real net/http.Server on an in-memory listener. Responses are parsed by net/http. distinct = (upgrader, verdict class, non-canonical variants, selector kinds, outcome).",
 		Assumptions: []string{"net/http.ReadResponse is the independent response parser; crypto/sha1 + encoding/base64 compute the expected accept value", "OPEN classes: duplicated mandatory headers with different validity, Upgrade token lists, empty Host, version tokens HTTP/1.01, http/1.1 and a minor version overflowing 64 bits, header with empty name", "requests that net/http refuses itself never reach HTTPUpgrader and are counted as not-reached"},
-		Subs:        []mon.Sub{subSingle(), subPairs(), subConfigs(), subRandom(), subNoHijack()},
+		Subs:        []mon.Sub{subSingle(), subPairs(), subConfigs(), subRandom(), subNoHijack(), subWriteFault()},
 	})
 }
